@@ -81,7 +81,7 @@ func factsC16(r *Repo) []Fact {
 
 	ext, extFile := cp.Func("", "extractOption")
 	if ext == nil || ext.Body == nil {
-		for _, n := range []string{"typeCmpIdentity", "passSubPathIsError", "nestedCopies", "designateCopies"} {
+		for _, n := range []string{"typeCmpIdentity", "typeCmpImplements", "passSubPathIsError", "nestedCopies", "designateCopies"} {
 			out = append(out, unknownFact(n, "Bool", "false", "compose/utils.go", "func extractOption not found"))
 		}
 		out = append(out, unknownFact("strip", "Nat", "0", "compose/utils.go", "func extractOption not found"))
@@ -136,6 +136,63 @@ func factsC16(r *Repo) []Fact {
 		out = append(out, boolFact("typeCmpIdentity", false, where+": no comparison of the option type with the node's optionType"))
 	default:
 		out = append(out, unknownFact("typeCmpIdentity", "Bool", "false", where, "option type comparison has an unexpected shape"))
+	}
+
+	// ---- typeCmpImplements: does the type test – in extractOption itself or in a package function
+	// it hands `opt.options[0]` to – ask reflect whether the value *implements* / is assignable /
+	// convertible to the node's option type (instead of, or besides, comparing the types)?
+	{
+		relaxed := func(body ast.Node) (string, bool) {
+			found, name := false, ""
+			ast.Inspect(body, func(n ast.Node) bool {
+				ce, ok := n.(*ast.CallExpr)
+				if !ok {
+					return true
+				}
+				if se, ok := ce.Fun.(*ast.SelectorExpr); ok {
+					switch se.Sel.Name {
+					case "Implements", "AssignableTo", "ConvertibleTo":
+						found, name = true, se.Sel.Name
+					}
+				}
+				return true
+			})
+			return name, found
+		}
+		impl, via := false, ""
+		if n, ok := relaxed(ext.Body); ok {
+			impl, via = true, "extractOption calls reflect's "+n
+		}
+		ast.Inspect(ext.Body, func(n ast.Node) bool {
+			ce, ok := n.(*ast.CallExpr)
+			if !ok {
+				return true
+			}
+			id, ok := ce.Fun.(*ast.Ident)
+			if !ok {
+				return true
+			}
+			takesOpt := false
+			for _, a := range ce.Args {
+				if strings.Contains(exprString(a), "opt.options[0]") {
+					takesOpt = true
+				}
+			}
+			if !takesOpt {
+				return true
+			}
+			if fd, _ := cp.Func("", id.Name); fd != nil && fd.Body != nil {
+				if n, ok := relaxed(fd.Body); ok {
+					impl, via = true, "extractOption hands opt.options[0] to "+id.Name+", which calls reflect's "+n
+				}
+			}
+			return true
+		})
+		if impl {
+			out = append(out, boolFact("typeCmpImplements", true, where+": "+via))
+		} else {
+			out = append(out, boolFact("typeCmpImplements", false, where+": no Implements / AssignableTo / ConvertibleTo test on the option value (in extractOption or a function it passes opt.options[0] to)"))
+		}
 	}
 
 	// ---- strip: NewNodePath(path.path[N:]...)
